@@ -20,6 +20,15 @@ CHECKS = {
     "C20": ("model_checking", "Search.tla flow bookkeeping (TLC) + spec->code replay (B1) + paired real runs (B2)",
             "Every evaluation event of the model carries the system flow and per-borehole mass flow implied by the flow type and the field's count; the replay compares them with what the real retrieve_flow hands to GHE and to the g-function call for every search class.",
             "fluid density is a constant of the double in B1; real fluids in B2", "5/C20"),
+    "C06": ("model_checking", "HybridLoads.tla model checking + replay into process_month_loads / HybridLoad constructor (B1 levels A, B)",
+            "Per-month energy conservation is a structural invariant of the segment machine (segments tile the month, every due pulse lasts its duration, average time equals the divisor of the monthly rate); TLC enumerates peak presence x peak-day order x first/middle/last day x duration classes x retention flags x horizons and the real code is replayed on every case.",
+            "level B stubs the 48-hour peak-duration simulation; conservation on the code's own arrays is measured in exact rationals with tolerance 1e-8 of the month's absolute energy plus the 1e-6 h placeholder term", "5/C06"),
+    "C07": ("model_checking", "HybridLoads.tla invariants (TLC) + replay (B1 levels A, B)",
+            "Pulse presence / absence, sign, retention months, duration range and centring are invariants of the same machine over the same enumerated input classes, replayed into the real code.",
+            "the Cullin-Spitler duration definition itself (last clause) is judged by the spec-bound reference in the thorough tier only; durations are inputs of the month machine", "5/C07"),
+    "C08": ("model_checking", "HybridLoads.tla + Calendar.tla (TLC) + replay (B1)",
+            "Month-end breakpoints, horizon end, yearly repetition and strict monotonicity unless windows overlap are invariants over all horizons in the configuration; the calendar helpers are proved equal to the reference calendar for months 1..360 and replayed against the real helpers.",
+            "non-leap single-year load list (the only mode the manager uses)", "5/C08"),
 }
 
 NOT_APPLICABLE = [
